@@ -75,12 +75,11 @@ def check_agreement(chk, mod, table, rxs):
     alts = group_language(bin_rx[0], 1)
     sch = schema_mod.load(chk.repo.module('model'), 'BARE_SCRIPT_TYPES', 'C02.A')
     enum = sch.enums.get('BinaryExpressionOperator', [])
-    ee = EvalExpr(chk.repo, 'C02.A')
-    bs = ee.binary()
-    disp = set(bs.branches)
-    miss = set(enum) - disp
-    if bs.else_branch is not None and len(miss) == 1:
-        disp |= miss
+    from .. import evalsim
+    res = evalsim.operator_coverage(chk.repo, sorted(set(enum) | set(RUNG)), 'C02.A')
+    if any(v[0] == 'undecided' for v in res.values()):
+        raise Unrecognised('C02.A', f'operator coverage of the evaluator not decided: {[k for k, v in res.items() if v[0] == "undecided"]}', mod.rel)
+    disp = {o for o, v in res.items() if v[0] == 'value' and v[1] is not None}
     sets = {'tokeniser alternation': set(alts), 'BINARY_REORDER keys': set(table), 'schema enum': set(enum), 'evaluator dispatch': disp, 'language': set(RUNG)}
     ref = sets['language']
     for name, s in sets.items():
